@@ -144,7 +144,8 @@ def run(ctx):
                 any(fi.name == e.func.attr for fi in path):
             e = e.args[0]
         if isinstance(e, ast.Call) and isinstance(e.func, ast.Name) and e.func.id == 'encode':
-            enc_args.append(e.args[0] if e.args else None)
+            from ..loader import expand_locals as _xl6
+            enc_args.append(_xl6(kb.node, e.args[0]) if e.args else None)
             why.append('encode(%s)' % norm(e.args[0])[:50])
             continue
         raw_ok = False
